@@ -422,10 +422,14 @@ func (tr *gtTr) fuelOf(x *ast.ForStmt, env *venv) string {
 		return f
 	}
 	idx := tr.loopIndex[x]
-	if tr.cfg != nil && tr.cfg.fuel[idx] != "" {
-		e := tr.expr(gtParseExpr(tr.cfg.fuel[idx]), env)
+	measure := tr.autoFuel[x]
+	if measure == "" && tr.cfg != nil {
+		measure = tr.cfg.fuel[idx]
+	}
+	if measure != "" {
+		e := tr.expr(gtParseExpr(measure), env)
 		if e.typ.kind != kInt || len(e.binds) > 0 {
-			gtFail("the fuel measure %q is not a total integer expression", tr.cfg.fuel[idx])
+			gtFail("the fuel measure %q is not a total integer expression", measure)
 		}
 		return "(Z.to_nat " + e.code + ")"
 	}
@@ -508,11 +512,14 @@ func (tr *gtTr) generalRange(x *ast.RangeStmt, env *venv, next cont) gnode {
 	if x.Tok != token.DEFINE {
 		gtFail("range loop that assigns to existing variables")
 	}
-	list := tr.expr(x.X, env)
+	list, isNodes := tr.stringerList(x.X, env)
+	if !isNodes {
+		list = tr.expr(x.X, env)
+	}
+	if list.typ.kind == kString && list.typ != tBytes {
+		return tr.runeRange(x, env, next)
+	}
 	if list.typ.kind != kSlice && list.typ != tBytes {
-		if list.typ.kind == kString {
-			gtFail("range over the runes of a string is outside the subset")
-		}
 		gtFail("range over a %s is outside the subset", list.typ.name)
 	}
 	et := elemType(list.typ)
@@ -565,6 +572,73 @@ func (tr *gtTr) generalRange(x *ast.RangeStmt, env *venv, next cont) gnode {
 	}
 	sp := loopSpec{body: x.Body, what: "range loop", list: &list, valName: val.Name, keyName: key, node: x}
 	return tr.scoped(env, next, func(e *venv, nx cont) gnode { return tr.loop(sp, e, nx) })
+}
+
+// runeRange:  for i, ch := range s  over the runes of a string s, as the Go specification defines it through UTF-8
+// decoding, written out:
+//
+//	rng_s := s; rng_i := 0; rng_w := 0
+//	for ; rng_i < len(rng_s); rng_i += rng_w {
+//		ch, w := utf8.DecodeRuneInString(rng_s[rng_i:]); rng_w = w; i := rng_i
+//		body
+//	}
+//
+// (s evaluated once; i and ch fresh in every iteration, so a body that assigns them does not disturb the iteration;
+// continue runs the post statement).  utf8.DecodeRuneInString stays the parameter f_utf8_DecodeRuneInString; the
+// fuel is len(s)+1, enough for every decoder that answers a width of at least 1 on a non-empty string (a lemma
+// `model = Some ...` proves that of the decoder it instantiates).
+func (tr *gtTr) runeRange(x *ast.RangeStmt, env *venv, next cont) gnode {
+	idx := tr.loopIndex[x]
+	sN, iN, wN, w1 := fmt.Sprintf("rng_s%d", idx), fmt.Sprintf("rng_i%d", idx), fmt.Sprintf("rng_w%d", idx), fmt.Sprintf("rng_d%d", idx)
+	for _, n := range []string{sN, iN, wN, w1} {
+		if env.lookup(n) != nil {
+			gtFail("range over a string: the name %s is taken", n)
+		}
+	}
+	id := ast.NewIdent
+	zero := func() ast.Expr { return &ast.BasicLit{Kind: token.INT, Value: "0"} }
+	key, val := "_", "_"
+	if k, ok := x.Key.(*ast.Ident); ok {
+		key = k.Name
+	} else if x.Key != nil {
+		gtFail("range key is not an identifier")
+	}
+	if v, ok := x.Value.(*ast.Ident); ok {
+		val = v.Name
+	} else if x.Value != nil {
+		gtFail("range loop value is not an identifier")
+	}
+	qual := "utf8"
+	if importOf(tr.f, qual) != "unicode/utf8" {
+		qual = " utf8" // resolved by libCall
+	}
+	decode := &ast.CallExpr{Fun: &ast.SelectorExpr{X: id(qual), Sel: id("DecodeRuneInString")},
+		Args: []ast.Expr{&ast.SliceExpr{X: id(sN), Low: id(iN)}}}
+	body := []ast.Stmt{
+		&ast.AssignStmt{Lhs: []ast.Expr{id(val), id(w1)}, Tok: token.DEFINE, Rhs: []ast.Expr{decode}},
+		&ast.AssignStmt{Lhs: []ast.Expr{id(wN)}, Tok: token.ASSIGN, Rhs: []ast.Expr{id(w1)}},
+	}
+	if key != "_" {
+		body = append(body, &ast.AssignStmt{Lhs: []ast.Expr{id(key)}, Tok: token.DEFINE, Rhs: []ast.Expr{id(iN)}})
+	}
+	body = append(body, &ast.BlockStmt{List: x.Body.List})
+	loop := &ast.ForStmt{
+		Cond: &ast.BinaryExpr{X: id(iN), Op: token.LSS, Y: &ast.CallExpr{Fun: id("len"), Args: []ast.Expr{id(sN)}}},
+		Post: &ast.AssignStmt{Lhs: []ast.Expr{id(iN)}, Tok: token.ADD_ASSIGN, Rhs: []ast.Expr{id(wN)}},
+		Body: &ast.BlockStmt{List: body},
+	}
+	tr.loopIndex[loop] = idx
+	if tr.autoFuel == nil {
+		tr.autoFuel = map[ast.Node]string{}
+	}
+	tr.autoFuel[loop] = "len(" + sN + ") + 1"
+	blk := &ast.BlockStmt{List: []ast.Stmt{
+		&ast.AssignStmt{Lhs: []ast.Expr{id(sN)}, Tok: token.DEFINE, Rhs: []ast.Expr{x.X}},
+		&ast.AssignStmt{Lhs: []ast.Expr{id(iN)}, Tok: token.DEFINE, Rhs: []ast.Expr{zero()}},
+		&ast.AssignStmt{Lhs: []ast.Expr{id(wN)}, Tok: token.DEFINE, Rhs: []ast.Expr{zero()}},
+		loop,
+	}}
+	return tr.stmt(blk, env, next)
 }
 
 const gtPrelude2 = `(* gotrans, loops and state: a loop function returns how it was left *)
